@@ -168,6 +168,10 @@ class ExprGen:
             t = r.choice(['0', '1', '2', '3', '7', '0.5', '2.5', '10', '1e+3', '12.', '100'])
             return ('num', t, float(t))
         self.nops += 1
+        if r.random() < 0.012:
+            # a spreadsheet-style alias (abs, max, len ...): these exist for evaluate_expression with builtins only - in a script, and with
+            # builtins off, the name is undefined wherever the call stands (an if / while condition is no exception)
+            return ('call', r.choice(['abs', 'max', 'min', 'len', 'round', 'floor', 'ceil', 'sqrt', 'text', 'date']), [self.num(d - 1)])
         if k < 0.55:
             return self.maybe_probe(('bin', r.choice(['+', '-', '*']), self.num(d - 1), self.num(d - 1)))
         if k < 0.62:
